@@ -59,7 +59,10 @@ PROPS = {
         suites=[("hdrv", "c16")],
         level_text="check_exact characterises Dir.Check without reference to iteration order (proved from the fold over "
                    "readdir entries), check_perm_invariant gives order independence, init_only_on_empty and "
-                   "init_produces_valid_store cover initialisation; generated directories and histories are run on the "
+                   "init_produces_valid_store cover initialisation; step_preserves_valid / ops_preserve_valid: after EVERY "
+                   "prefix of every history (any length, users, successful and failing operations) that never removes or "
+                   "demotes the last administrator the directory passes the check, and never holds two files for one "
+                   "user (induction over the history); generated directories and histories are run on the "
                    "real store and compared with the model and with an independent statement of the property.",
         rule="Directories of 0-8 entries from valid names (half of them from a family of RELATED names: P, P.doe, P.b, "
              "P.user, P.admin, P-x, P@m ... so that other users' files sort between P.admin and P.user): .user/.admin files (supported, unknown set, empty, garbage, other "
@@ -68,8 +71,8 @@ PROPS = {
              "initialised store that never remove or demote the last administrator: Check, no-two-files and empty work "
              "area after every operation.",
         trusted=[T_CRYPTO, T_FS],
-        partial=["ops_preserve_valid (invariant preservation over histories) and the CLI gate (exit status 3 unless "
-                 "--do-check=false) are decided by the run, not yet by a theorem"],
+        partial=["the CLI gate (exit status 3 unless --do-check=false) is decided by the run (built binary on "
+                 "generated invalid directories), not by a theorem"],
     ),
     "C03": dict(
         modules=["Whawty.Props.C03"],
